@@ -22,6 +22,7 @@ func checkC08(c *Ctx) {
 	c.Rule("C08/R7", "a key returns for each field the value at that field's index, or the empty string when the row was trimmed before it")
 	c.Rule("C08/R8", "what a projection remembers about a key depends on the key alone: every per-projection cache filled while projecting (the .config key-to-field table) is keyed by every per-result input of the cached decision — whether a key belongs to .config is a property of the result (file vs internal configuration), so it must not be cached per key")
 
+	c.Rule("C08/R9", "keys see every field: the flattened-field cache that Key.String, StringValues and the residue rely on is rebuilt whenever a field is added (same rule as C09/R10: builder leaves non-nil, reset guarded by != nil)")
 	p := mustLoad(c, loadOpts{}, "./benchproc", "./benchproc/internal/parse", "./benchfmt")
 	c08Memo(c, p)
 	c08Intern(c, p)
@@ -31,6 +32,7 @@ func checkC08(c *Ctx) {
 	c08Growth(c, p)
 	c08Patterns(c, p)
 	c08Get(c, p)
+	c09FlatInvariant(c, p, "C08/R9")
 }
 
 func c08Intern(c *Ctx, p *Prog) {
